@@ -5,7 +5,7 @@ from dbengine import DbEngine
 class Engine(DbEngine):
     prop = 'C18'
     profiles = ('debug',)
-    weights = {'new': 6, 'addr': 2, 'delete': 1, 'remove': 5, 'vanish': 2.5, 'giftwrap': 3, 'resubmit': 3, 'qown': 1}
+    weights = {'new': 6, 'addr': 2, 'delete': 1, 'remove': 5, 'vanish': 2.5, 'giftwrap': 3, 'resubmit': 3, 'qown': 1, 'ghost': 0.5}
     aspects = {'addrs.find', 'stats.del', 'vanish', 'addrs.asof', 'store.result', 'stats.main', 'ids.del', 'ids.hash', 'remove', 'extra', 'ids.has'}
     quick = (200, 35)
     thorough = (5000, 80)
